@@ -80,6 +80,14 @@ type Boolean interface {
 	Boolean() bool
 }
 
+// isNilPointer reports whether v holds a typed nil pointer. Calling a
+// value-receiver method through such a pointer panics, so the coercions
+// treat it like nil.
+func isNilPointer(v Value) bool {
+	r := reflect.ValueOf(v)
+	return r.Kind() == reflect.Ptr && r.IsNil()
+}
+
 // CoerceBool coerces the given value into a boolean. Boolean false is returned
 // if the value cannot be coerced.
 func CoerceBool(v Value) bool {
@@ -89,6 +97,9 @@ func CoerceBool(v Value) bool {
 	case bool:
 		return vc
 	case Boolean:
+		if isNilPointer(vc) {
+			return false
+		}
 		return vc.Boolean()
 	case uint:
 		return vc > 0
@@ -119,8 +130,14 @@ func CoerceBool(v Value) bool {
 	case decimal.Decimal:
 		return vc.GreaterThan(decimal.Zero)
 	case Stringer:
+		if isNilPointer(vc) {
+			return false
+		}
 		return len(vc.String()) > 0
 	case Number:
+		if isNilPointer(vc) {
+			return false
+		}
 		return vc.Number() > 0
 	}
 	return false
@@ -141,6 +158,9 @@ func CoerceNumber(v Value) float64 {
 	case SafeValue:
 		return CoerceNumber(vc.Value())
 	case Number:
+		if isNilPointer(vc) {
+			return 0
+		}
 		return vc.Number()
 	case uint:
 		return float64(vc)
@@ -170,11 +190,14 @@ func CoerceNumber(v Value) float64 {
 		f, _ := vc.Float64()
 		return f
 	case Stringer:
+		if isNilPointer(vc) {
+			return 0
+		}
 		return stringToFloat(vc.String())
 	case string:
 		return stringToFloat(vc)
 	case Boolean:
-		if vc.Boolean() {
+		if !isNilPointer(vc) && vc.Boolean() {
 			return 1
 		}
 	case bool:
@@ -194,13 +217,19 @@ func CoerceString(v Value) string {
 	case string:
 		return vc
 	case Stringer:
+		if isNilPointer(vc) {
+			return ""
+		}
 		return vc.String()
 	case float32, float64, int, int8, int16, int32, int64, uint, uint8, uint16, uint32, uint64:
 		return fmt.Sprintf("%v", vc)
 	case Number:
+		if isNilPointer(vc) {
+			return ""
+		}
 		return fmt.Sprintf("%v", vc.Number())
 	case Boolean:
-		if vc.Boolean() == true {
+		if !isNilPointer(vc) && vc.Boolean() == true {
 			return "1" // Twig compatibility (aka PHP compatibility)
 		}
 	case bool:
